@@ -31,7 +31,12 @@ CONFIG = dict(
                   "enter the model as inputs computed by the harness (harness/fmt_gen.py), not as modelled behaviour"],
     assumptions=["Frame.clsname/modname/filename/funcname are taken from the frame as stackscope reports them (not part of formatting)",
                  "line numbers are non-negative"],
-    unproved_legs=["read-back is proved on structured lines (marker chain x body); lexing marker chains out of the rendered characters "
+    unproved_legs=["C18_newline_terminated (every element ends in exactly one newline when no payload has a newline) is NOT a Coq "
+                   "theorem: it is checked by the direct oracle on every generated case (F12 = its known counterexample, "
+                   "C18_F12_refuted); C18_str_is_concat is definitional in the model and checked by the direct oracle on the code",
+                   "C18_roundtrip is stated for read_back_fuel with the explicit bound ht_stack t <= n; that read_back's own fuel "
+                   "(1 + longest marker chain) suffices is evaluated on every case inside Coq, not proved",
+                   "read-back is proved on structured lines (marker chain x body); lexing marker chains out of the rendered characters "
                    "is not modelled: the strings are tied to the structured lines by C18_string_level (rendering), and the markers that "
                    "can follow one another are shown pairwise distinct as strings (C18_markers_wf) but no string-level parser is proved"],
     NOTES=("skeleton identifies inner_stack=None with an empty inner stack and treats child task stacks and child contexts both as "
